@@ -466,16 +466,26 @@ static struct {
     ABT_xstream es;
     ABT_pool Q, P;
     ABT_eventual ev[PP_MAXW];
+    ABT_rwlock rw;
     ABT_thread w[PP_MAXW];
-    int nw, mode;
+    int nw, mode, ext_producer, use_rwlock, wr[PP_MAXW];
     volatile int created, done[PP_MAXW], join_issued, signalled;
     ABT_sched replaced_by;
 } PP;
 static void pp_worker(void *arg)
 {
     int i = (int)(long)arg;
-    ABT_OK(ABT_eventual_wait(PP.ev[i], NULL));
-    PP.done[i] = 1;
+    if (PP.use_rwlock) {
+        if (PP.wr[i])
+            ABT_OK(ABT_rwlock_wrlock(PP.rw));
+        else
+            ABT_OK(ABT_rwlock_rdlock(PP.rw));
+        PP.done[i] = 1;
+        ABT_OK(ABT_rwlock_unlock(PP.rw));
+    } else {
+        ABT_OK(ABT_eventual_wait(PP.ev[i], NULL));
+        PP.done[i] = 1;
+    }
     sim_progress();
 }
 static void pp_signaller(void *arg)
@@ -495,35 +505,66 @@ static void pp_spawner(void *arg)
         ABT_OK(ABT_sched_create_basic(ABT_SCHED_BASIC, 2, pools, ABT_SCHED_CONFIG_NULL, &PP.replaced_by));
         ABT_OK(ABT_xstream_set_main_sched(PP.es, PP.replaced_by));
     }
-    for (int i = 0; i < PP.nw; i++)
-        ABT_OK(ABT_thread_create(PP.P, pp_worker, (void *)(long)i, ABT_THREAD_ATTR_NULL, &PP.w[i]));
-    PP.created = 1;
+    if (!PP.ext_producer) {
+        for (int i = 0; i < PP.nw; i++)
+            ABT_OK(ABT_thread_create(PP.P, pp_worker, (void *)(long)i, ABT_THREAD_ATTR_NULL, &PP.w[i]));
+        PP.created = 1;
+    }
 }
 static void pp_releaser(void *arg)
 {
     (void)arg;
+    if (PP.ext_producer) {
+        /* this external thread is the only producer of P: it creates the workers there and it is
+         * the one whose unlock / set pushes them back; the stream is the only consumer (the
+         * workers never yield), so every access mode but PRIV fits */
+        if (PP.use_rwlock)
+            ABT_OK(ABT_rwlock_wrlock(PP.rw));
+        for (int i = 0; i < PP.nw; i++)
+            ABT_OK(ABT_thread_create(PP.P, pp_worker, (void *)(long)i, ABT_THREAD_ATTR_NULL, &PP.w[i]));
+        PP.created = 1;
+    }
     while (!PP.join_issued)
         sim_yield();
     for (int k = 0; k < 3 + (int)sim_rand_n(SIM_RS_CHAOS, 60); k++)
         sim_yield();
-    ABT_OK(ABT_thread_create(PP.Q, pp_signaller, NULL, ABT_THREAD_ATTR_NULL, NULL));
+    if (!PP.ext_producer)
+        ABT_OK(ABT_thread_create(PP.Q, pp_signaller, NULL, ABT_THREAD_ATTR_NULL, NULL));
+    else if (PP.use_rwlock)
+        ABT_OK(ABT_rwlock_unlock(PP.rw));
+    else
+        pp_signaller(NULL);
     sim_progress();
 }
-static void run_c06_priv_pool(void)
+static void run_priv_pool(int want_rwlock)
 {
     memset(&PP, 0, sizeof PP);
     wl_env_swarm();
     ABT_OK(ABT_init(0, NULL));
     static const ABT_pool_kind pk[] = { ABT_POOL_FIFO, ABT_POOL_RANDWS, ABT_POOL_FIFO_WAIT };
     static const ABT_sched_predef sk[] = { ABT_SCHED_BASIC, ABT_SCHED_PRIO, ABT_SCHED_RANDWS, ABT_SCHED_BASIC_WAIT };
+    static const ABT_pool_access acc[] = { ABT_POOL_ACCESS_PRIV, ABT_POOL_ACCESS_SPSC, ABT_POOL_ACCESS_SPMC, ABT_POOL_ACCESS_MPSC, ABT_POOL_ACCESS_MPMC };
+    static const char *an[] = { "PRIV", "SPSC", "SPMC", "MPSC", "MPMC" };
     PP.mode = (int)plan_n(3); /* 0 plain, 1 spare scheduler lists P too, 2 replaced main scheduler still lists P */
     PP.nw = plan_range(1, PP_MAXW);
+    PP.ext_producer = want_rwlock || plan_bool();
+    PP.use_rwlock = PP.ext_producer && (want_rwlock || plan_bool());
+    int ai = PP.ext_producer ? 1 + (int)plan_n(4) : (int)plan_n(5);
+    /* for pools that are not private the runtime counts blocked units only while a single
+     * scheduler object lists the pool (its stand-in for "served by one stream", see the comment in
+     * ABTI_sched_has_unit): a second scheduler object only with a private pool */
+    if (ai != 0)
+        PP.mode = 0;
     int ski = (int)plan_n(4);
     ABT_OK(ABT_pool_create_basic(ski == 3 ? ABT_POOL_FIFO_WAIT : pk[plan_n(2)], ABT_POOL_ACCESS_MPMC, ABT_FALSE, &PP.Q));
-    ABT_OK(ABT_pool_create_basic(ski == 3 ? ABT_POOL_FIFO_WAIT : pk[plan_n(2)], ABT_POOL_ACCESS_PRIV, ABT_FALSE, &PP.P));
-    sim_note("priv-pool mode=%s sched=%d workers=%d ", PP.mode == 0 ? "plain" : PP.mode == 1 ? "spare-sched" : "replaced-sched", ski, PP.nw);
-    for (int i = 0; i < PP.nw; i++)
+    ABT_OK(ABT_pool_create_basic(ski == 3 ? ABT_POOL_FIFO_WAIT : pk[plan_n(2)], acc[ai], ABT_FALSE, &PP.P));
+    sim_note("priv-pool mode=%s sched=%d workers=%d pool-access=%s producer=%s blocked-on=%s ", PP.mode == 0 ? "plain" : PP.mode == 1 ? "spare-sched" : "replaced-sched", ski, PP.nw, an[ai],
+             PP.ext_producer ? "external-thread" : "the-stream", PP.use_rwlock ? "rwlock" : "eventual");
+    for (int i = 0; i < PP.nw; i++) {
         ABT_OK(ABT_eventual_create(0, &PP.ev[i]));
+        PP.wr[i] = (int)plan_n(3) == 0;
+    }
+    ABT_OK(ABT_rwlock_create(&PP.rw));
     ABT_pool pools[2] = { PP.Q, PP.P };
     ABT_sched sa, spare = ABT_SCHED_NULL;
     ABT_sched_config cfg;
@@ -551,7 +592,7 @@ static void run_c06_priv_pool(void)
     ABT_OK(ABT_xstream_join(PP.es));
     for (int i = 0; i < PP.nw; i++)
         SIM_CHECK(PP.done[i], "join:returned-before-units-finished",
-                  "ABT_xstream_join returned while worker %d of the stream's private pool is still blocked (mode %d: %s)", i, PP.mode,
+                  "ABT_xstream_join returned while worker %d of the stream's %s pool is still blocked on %s (mode %d: %s)", i, an[ai], PP.use_rwlock ? "a reader-writer lock" : "an eventual", PP.mode,
                   PP.mode == 0 ? "one scheduler" : PP.mode == 1 ? "a spare scheduler object lists the pool too" : "the replaced, not yet freed main scheduler lists the pool too");
     ABT_xstream_state st;
     ABT_OK(ABT_xstream_get_state(PP.es, &st));
@@ -566,10 +607,22 @@ static void run_c06_priv_pool(void)
         ABT_OK(ABT_sched_free(&spare));
     for (int i = 0; i < PP.nw; i++)
         ABT_OK(ABT_eventual_free(&PP.ev[i]));
+    ABT_OK(ABT_rwlock_free(&PP.rw));
     ABT_OK(ABT_pool_free(&PP.Q));
     ABT_OK(ABT_pool_free(&PP.P));
     ABT_OK(ABT_finalize());
     sim_ledger_check_empty("after ABT_finalize");
-    sim_count("c06.priv_pool_joins", 1);
+    sim_count(want_rwlock ? "c10.lockers_of_a_joined_stream" : "c06.priv_pool_joins", 1);
+}
+static void run_c06_priv_pool(void)
+{
+    run_priv_pool(0);
 }
 SIM_WORKLOAD("C06", "priv-pool", run_c06_priv_pool, 2)
+/* C10 "every blocked locker eventually acquires the lock": also the lockers of a stream that
+ * is being joined while they wait -- the stream has to stay until they were served */
+static void run_c10_joined_lockers(void)
+{
+    run_priv_pool(1);
+}
+SIM_WORKLOAD("C10", "lockers-of-a-joined-stream", run_c10_joined_lockers, 2)
